@@ -614,6 +614,9 @@ impl SplitPool {
             .await?
             .map_err(|_| PoolError::QueueClosed)?;
 
+        #[cfg(feature = "verif")]
+        crate::verif::point("pool.queued", queue);
+
         let start = Instant::now();
 
         let _drop_guard = timeout_fut("rx from oneshot channel", max_timeout, rx)
